@@ -26,8 +26,18 @@ LongAlu == IntAlu \ {"shl", "shr", "ushr"}
 AliasL == {Ins(nm \o "-long", 3, 1, 3) : nm \in LongAlu} \cup {Ins(nm \o "-long", 3, 3, 1) : nm \in LongAlu} \cup {Ins(nm \o "-long/2addr", 3, 1, 0) : nm \in LongAlu}
 Aliased == {M(Looped(op, Ret(2)), 3, 1, <<"I", "I">>, "I") : op \in AliasI} \cup {M(Looped(op, RetW(3)), 5, 1, <<"J", "J">>, "J") : op \in AliasL}
            \cup {M(<<[I(0) EXCEPT !.op = "if-lez", !.a = 1, !.t = 3], op, Ret(2)>>, 3, 1, <<"I", "I">>, "I") : op \in AliasI}
+\* a temporary defined in one block and used in another one, with an operand of its definition overwritten in between
+\* (v0 = t; p0 = v1 (v3 in the loop), p1 = v2 (v4)):  t = a + b; if (b > 0) a = a OP c; return t ^ a
+Br(mn, ra, tg) == [I(0) EXCEPT !.op = mn, !.a = ra, !.t = tg]
+AcrossBranch(ow) == <<Ins("add-int", 0, 1, 2), Br("if-lez", 2, 4), ow, Ins("xor-int", 0, 0, 1), Ret(0)>>
+\* t = a + 1; n &= 3; s = 0; i = 0; do { s += t; a += s; i++ } while (i < n); return s + a
+AcrossLoop == <<InsLit("add-int/lit8", 0, 3, 1), InsLit("and-int/lit8", 4, 4, 3), InsLit("const/4", 1, 0, 0), InsLit("const/4", 2, 0, 0),
+                Ins("add-int/2addr", 1, 0, 0), Ins("add-int/2addr", 3, 1, 0), InsLit("add-int/lit8", 2, 2, 1),
+                [I(0) EXCEPT !.op = "if-lt", !.a = 2, !.b = 4, !.t = 5], Ins("add-int", 1, 1, 3), Ret(1)>>
+Propagated == {M(AcrossBranch(ow), 3, 1, <<"I", "I">>, "I") : ow \in {InsLit("mul-int/lit8", 1, 1, 2), InsLit("add-int/lit8", 1, 1, -1), Ins("sub-int/2addr", 1, 2, 0), Ins("move", 1, 2, 0)}}
+              \cup {M(AcrossLoop, 5, 3, <<"I", "I">>, "I")}
 Methods ==
-  Aliased \cup
+  Aliased \cup Propagated \cup
   {M(<<Ins(nm \o "-int", 0, 2, 3), Ret(0)>>, 4, 2, <<"I", "I">>, "I") : nm \in IntAlu}
   \cup {M(<<Ins(nm \o "-int/2addr", 2, 3, 0), Ret(2)>>, 4, 2, <<"I", "I">>, "I") : nm \in IntAlu}
   \cup {M(<<InsLit(nm \o "-int/lit16", 0, 1, lt), Ret(0)>>, 2, 1, <<"I">>, "I") : nm \in Lit16Alu, lt \in Lits16}
